@@ -35,7 +35,7 @@ Returns (iter, params, cost) if iter is True, else returns (params, cost), where
         return read_history(source.name, iter)
     if isinstance(source, str):
         import re
-        source = re.sub(r'\.py*.$', '', source)  # strip off .py* extension
+        source = re.sub(r'\.py[cod]?$', '', source)  # strip off .py* extension
     elif isinstance(source, Monitor):
         monitor = True
     elif isinstance(source, dataset):
@@ -356,7 +356,7 @@ def read_import(file, *targets):
   "import the targets; targets are name strings"
   import re, os, types
   _dir, name = os.path.split(file)
-  name = re.sub(r'\.py*.$', '', name) #XXX: strip .py* extension
+  name = re.sub(r'\.py[cod]?$', '', name) #XXX: strip .py* extension
   if _dir and not os.path.isdir(_dir):
     raise RuntimeError('File: {0} not found'.format(name))
   path = os.path.join(_dir, name + '.py')
